@@ -233,4 +233,25 @@ def l6_alias_case(ctx):
     alias_case(ctx, 'L6')
 
 
-RULES = [('L6', l6_alias_case), ('L1', l1_tables), ('L2', l2_month_spellings), ('L3', l3_printers), ('L4', l4_word_free), ('DU5', l5_formats)]
+def l7_alias_whole_words(ctx):
+    """L7 an alias key is compiled as \\b<key>\\b and applied with is_match to a token's text: the key must stay between the
+    two word boundaries (a top-level alternation a|b|c binds the boundaries to a and c only, so stems match inside words)"""
+    ctx.rule('L7', 'alias keys match whole words only', floor=20)
+    tables = [('alias', ctx.config.j.get('alias', {}))] + [('languages.%s.alias' % l, ctx.config.languages[l].get('alias', {})) for l in sorted(ctx.config.languages)]
+    pats = ['\\b%s\\b' % k for _, t in tables for k in t]
+    ctx.config.rx.load(pats)
+    for where, t in tables:
+        for k in t:
+            h = ctx.config.rx.hir('\\b%s\\b' % k)
+            if h is None:
+                ctx.finding('L7', '%s/%s/unparsable' % (where, k), 'alias key %r does not compile as \\b%s\\b: the alias is dropped at load time' % (k, k), site='config.json ' + where)
+                continue
+            subs = h['subs'] if h['k'] == 'concat' else []
+            if len(subs) >= 3 and subs[0]['k'] == 'look' and subs[-1]['k'] == 'look' and subs[0].get('look') == 'word' and subs[-1].get('look') == 'word':
+                ctx.ok('L7', '%s %r is bounded by \\b on both sides' % (where, k), 'regex-shape', site='config.json ' + where, sample=False)
+            else:
+                ctx.finding('L7', '%s/%s/unanchored' % (where, k), 'alias key %r compiled as \\b%s\\b is not bounded by the two word boundaries (%s at top level): parts of it match inside longer words, which then turn into %r'
+                            % (k, k, h['k'], t[k]), site='config.json ' + where)
+
+
+RULES = [('L7', l7_alias_whole_words), ('L6', l6_alias_case), ('L1', l1_tables), ('L2', l2_month_spellings), ('L3', l3_printers), ('L4', l4_word_free), ('DU5', l5_formats)]
